@@ -7,6 +7,7 @@
                    One obligation per (evaluator, operation).
  A2 UNIT-MIX       no function of sql::functions::string mixes byte lengths (str::len / String::len) with character iteration
                    (chars / char_indices): the character-based functions (SUBSTR, LEFT, RIGHT, LPAD, ...) count characters.
+ A3 DURATION-HOURS-UNREDUCED  SEC_TO_TIME / TIMEDIFF (durations) never reach a reduction modulo 24 inside the datetime module.
 Function *values* are NOT decided.
 """
 import arith
@@ -74,3 +75,24 @@ def run(ctx):
                "byte length (line %s) combined with character iteration (line %s): positions are computed in bytes but consumed in "
                "characters — wrong results for non-ASCII text" % (real[0].line, chs[0].line), f.loc())
     ctx.floor("A2.string_functions", n2, 8)
+    # A3 DURATION-HOURS-UNREDUCED: SEC_TO_TIME and TIMEDIFF format a duration, not a clock time: TIME_TO_SEC(SEC_TO_TIME(n)) = n
+    # needs the hour field to carry everything above 59:59.  Nothing they execute inside the datetime module reduces by 24
+    # (ADDTIME / SUBTIME, which wrap a clock time, do — a formatting helper shared with them brings that reduction along).
+    from paths import const_value
+    D = "sql::functions::datetime::"
+    for tail in ("eval_sec_to_time", "eval_timediff"):
+        f = m.fn(D + tail)
+        hits = []
+        nfn = 0
+        for k in m.reach_from([f.key]):
+            g = m.fns[k]
+            if not g.id.startswith(D):
+                continue
+            nfn += 1
+            for b in g.blocks:
+                for st in b["s"]:
+                    if st[0] == "=" and st[2][0] == "bin" and st[2][1] == "Rem" and const_value(g, st[2][3]) == 24:
+                        hits.append((g, st[3]))
+        ctx.ob("A3.DURATION-HOURS-UNREDUCED", tail, not hits, "no reduction modulo 24 in %d function(s) reached inside the datetime module" % nfn if not hits else
+               "%s reaches `%% 24` in %s (L%s): durations of 24 hours or more lose whole days (SEC_TO_TIME(90000) = '01:00:00')"
+               % (tail, hits[0][0].id.rsplit("::", 1)[-1], hits[0][1]), "%s:%s" % (hits[0][0].file, hits[0][1]) if hits else f.loc())
